@@ -581,6 +581,8 @@ class TextState:
                             nvals += len([a for a in args.split(",") if a.strip() and a.strip().upper() not in ("NO_NEWLINE$", "EOL_NOTAB$")])
                             if "NO_NEWLINE$" in args.upper() or "EOL_NOTAB$" in args.upper():
                                 special = True
+                        elif _re.search(r"\bPUNCH\b", ln, _re.I):
+                            special = True      # conditional / compound PUNCH: number of values per row not read from the text
                     self.up[n] = dict(nvals=nvals, headings=heads, special=special)
                     if k >= 1:
                         late_def.add(n)
@@ -650,6 +652,21 @@ def heading_before_open(sk, n):
     """the heading line of n was written before punch_open(n) in this call (the file cannot hold it)"""
     o, h = "o%d" % n, "h%d" % n
     return o in sk and h in sk and sk.index(h) < sk.index(o)
+
+
+def empty_rows_before_first_column(events):
+    """per user number: how many rows were ended in this call before any value was punched for that number
+    (rows of a block that has no column yet)"""
+    seen, cnt = set(), {}
+    for e in events:
+        p = e.split(" ")
+        if p[1] in ("pd", "ps", "pi"):
+            seen.add(int(p[3]))
+        elif p[1] == "endrow":
+            n = int(p[3])
+            if n not in seen and len(p) <= 4:       # no pending USER_PUNCH heading either
+                cnt[n] = cnt.get(n, 0) + 1
+    return cnt
 
 
 def skeleton_of_events(events):
@@ -937,7 +954,7 @@ def run_history(ctx, exe, inputs, cfgs, cells_cap=None, names=None, db=DB):
         r = {"diffs": diffs, "oracle": bad, "ret": ret, "events": len(events), "views": views, "info": info,
              "rows": sum(int(dict(x.split("=") for x in v)["rows"]) for v in views.get("sel", {}).values()),
              "redefined": sorted(info["late_redef"]), "call": k, "rel": [],
-             "sk_impl": skeleton_of_events(events), "kept_off": kept_off}
+             "sk_impl": skeleton_of_events(events), "kept_off": kept_off, "early_empty": empty_rows_before_first_column(events)}
         # relation: defined numbers read from the texts = numbers the object reports (error-free calls)
         judged = (ret == 0 and not info["inverse"])
         if judged and all(x["ret"] == 0 for x in res):
@@ -1057,11 +1074,20 @@ def handle_history_result(ctx, inputs, cfgs, k, r, hoisted):
         if key in ("sel-string-rows", "sel-file-rows", "sel-file-ne-string") and n_user in r["redefined"]:
             # narrow rule: a SELECTED_OUTPUT n block that the INPUT TEXT of this call re-reads in a later simulation
             ctx.finding("selected-output-redefined-within-call", text, dict(rep, oracle=r["oracle"][:5]))
+        elif key in ("sel-string-rows", "sel-file-rows") and early_empty_explains(text, r.get("early_empty", {}).get(n_user, 0)):
+            # narrow rule: the surplus of text lines over table rows is exactly the number of rows this call ended for the
+            # number before its first value was punched (CSelectedOutput::EndRow does not count a row while no column exists)
+            ctx.finding("rows-before-first-column-not-counted", text, dict(rep, oracle=r["oracle"][:5]))
         elif key.startswith("sel-") and mixed:
             ctx.finding("get_sel_out_string_on-ignores-n", text, dict(rep, oracle=r["oracle"][:5]))
         else:
             ctx.violation("history: model and code agree but the property's relation fails: " + text, dict(rep, oracle=r["oracle"][:5]))
             return
+
+
+def early_empty_explains(text, k):
+    m = _re.search(r"has (\d+) lines, table (\d+) rows", text)
+    return bool(m) and k > 0 and int(m.group(2)) > 0 and int(m.group(1)) - int(m.group(2)) == k
 
 
 def run_histories(ctx, exe, n, with_cells=True):
@@ -1102,6 +1128,15 @@ def run_histories(ctx, exe, n, with_cells=True):
                       gi.solution(ctx.rng, 2) + "END\n"]
             kinds = ["define", "plain"]
             forced = "mixed"
+        elif i == 2:
+            # forced: USER_PUNCH with more headings than punched values coming into effect in a later simulation, when
+            # the table of its number already holds data rows of this call (heading columns must still be padded)
+            u = ctx.rng.choice([1, 2, 5])
+            inputs = [gi.solution(ctx.rng, 1) + f"SELECTED_OUTPUT {u}\n -reset false\n -pH true\nEND\n",
+                      gi.solution(ctx.rng, 2) + "END\n" + (f"SELECTED_OUTPUT {u}\n -reset false\n -pe true\n" if ctx.rng.random() < 0.5 else "")
+                      + f"USER_PUNCH {u}\n -headings late_a late_b late_c\n 10 IF (STEP_NO > 0) THEN PUNCH 1\n"
+                      + "USE solution 1\nREACTION 1\n NaCl 1\n 0.1 moles in 2 steps\nEND\n"]
+            kinds = ["define", "late-block"]
         if i % 7 == 3:
             # forced: definitions of several blocks in call 1, no block in call 2 (the re-open path of do_run)
             inputs[1:2] = [gi.solution(ctx.rng, 50) + "END\n"]
